@@ -385,6 +385,28 @@ def run_case(case):
     got2 = [_centre(np.asarray(LF.load(i))) for i in range(N)]
     if got2 != want:
         bad("load(i)", "row-mismatch", f"load(i) centre codes {got2} != {want}")
+    # o2b load(index specification): negative integers, slices (any step), lists / tuples / generators that are unsorted or
+    # repeat an index - row k of the result is molecule spec[k]
+    if N:
+        specs = [("-1", -1, [N - 1]), ("slice(None)", slice(None), list(range(N))), ("slice(None,None,-1)", slice(None, None, -1), list(range(N))[::-1]),
+                 ("slice(1,None,2)", slice(1, None, 2), list(range(N))[1::2]), ("slice(-2,None)", slice(-2, None), list(range(N))[-2:])]
+        if N >= 2:
+            specs += [("[last,0]", [N - 1, 0], [N - 1, 0]), ("(0,last,0)", (0, N - 1, 0), [0, N - 1, 0]), ("generator(reversed)", "gen", list(range(N))[::-1]),
+                      ("[0]", [0], [0])]  # (an ndarray of indices raises TypeError: it passes the SupportsIndex test; loud, left alone)
+        for sname, spec, idx in specs:
+            if not idx:
+                continue  # an empty selection raises "Need array(s) to stack" (loud; nothing to mis-assign)
+            if isinstance(spec, str):
+                spec = (i for i in idx)
+            try:
+                a = np.asarray(LF.load(spec))
+            except Exception as e:  # noqa
+                bad("load(spec)", f"raised-{type(e).__name__}", f"load({sname}) raised {type(e).__name__}: {e}")
+                continue
+            a = a[None] if a.ndim == 3 else a
+            gotx = [_centre(x) for x in a]
+            if gotx != [want[i] for i in idx]:
+                bad("load(spec)", "row-mismatch", f"load({sname}) centre codes {gotx} != {[want[i] for i in idx]} (molecules {idx})")
     got3 = [_centre(np.asarray(a)) for a in LF.load_iter()]
     if got3 != want:
         bad("load_iter", "row-mismatch", f"load_iter centre codes {got3} != {want}")
